@@ -220,6 +220,10 @@ package udp
 //@       forall(i, 0, len(lastsent(resultChan).Body), lastsent(resultChan).Body[i] == ghost.dg[ghost.dg_cur][8 + i])
 //@   ensures [entry_consumed] err == nil ==> !haskey(c.results, index)
 
+// a pending call can always be woken: by its context, and by its own result channel (a response, or
+// the error every pending call is sent when the connection closes), in both waiting stages
+//@ rule select_arms (*conn).Transport done=1 recv=resultChan prop=C10
+
 //@ func (*conn).Transport
 //@   prop C09 C10 C11
 //@   nopanic
